@@ -289,6 +289,11 @@ func (e *Enc) typeFacts(x string, t types.Type) string {
 		if u.Info()&types.IsString != 0 {
 			return app(">=", app("strlen", x), "0")
 		}
+	case *types.Pointer:
+		if _, isStruct := under(u.Elem()).(*types.Struct); isStruct {
+			// a non-nil *T refers to a T object: references of different struct types are different
+			return or(app("=", x, "nil"), app("=", app("ptag", x), ilit(e.typeID(u.Elem()))))
+		}
 	case *types.Slice:
 		return app("wfslice", x)
 	case *types.Struct:
@@ -378,6 +383,12 @@ func (e *Enc) epochGet(ep *epoch, key, sort string) string {
 		old := e.heapGet(prev, key, sort)
 		if key == "$A" {
 			e.assert(app(">=", n, old))
+		} else if key == "$lock" {
+			// the set of locks the current thread holds is not changed by a callee: library functions are proved to
+			// release what they acquire (`released-at-exit`), externals do not touch the library's mutexes
+			e.assert(app("=", n, old))
+		} else if strings.HasPrefix(key, "$s:defer") {
+			e.assert(app("=", n, old)) // which defers this activation has registered is its own business
 		} else if strings.HasPrefix(key, "$s:") {
 		} else if ep.frame != nil && !strings.HasPrefix(key, "$") {
 			e.frameOf[n] = &frameInfo{prev: old, apre: ep.frame.apre, except: ep.frame.except}
@@ -705,11 +716,22 @@ func (e *Enc) strConst(s string) string {
 
 var globalIDs = map[string]int64{}
 
+// globalID: a fixed negative object id per package-level object. It depends only on the name (not on the order in
+// which functions are encoded), so the same function always yields the same VC text.
+var globalIDUsed = map[int64]string{}
+
 func globalID(name string) int64 {
 	if id, ok := globalIDs[name]; ok {
 		return id
 	}
-	id := int64(-1000 - len(globalIDs))
+	id := -(int64(1000) + int64(hashStr(name)%1000000000))
+	for {
+		if other, taken := globalIDUsed[id]; !taken || other == name {
+			break
+		}
+		id--
+	}
+	globalIDUsed[id] = name
 	globalIDs[name] = id
 	return id
 }
